@@ -28,10 +28,10 @@ ABA_OK = os.environ.get("VF_DTD_ABA", "0") == "1"
 SUBWINDOW_OK = os.environ.get("VF_DTD_SUBWINDOW", "0") == "1"
 # known finding (corpus/C03/regress/sched_again_livelock.txt): a DTD writer that follows readers is scheduled together with
 # them and busy-retries (data_lookup -> PARSEC_HOOK_RETURN_AGAIN -> reschedule with demoted priority); schedulers that hand
-# the demoted / just re-pushed task out first (ip, llp; flaky with ap) re-select it forever and the readers never run.
+# the demoted / just re-pushed task out first (ip, llp, ll; flaky hang also seen with ap) re-select it forever and the readers never run.
 # Excluded unless VF_DTD_SCHED_ALL=1.
 SCHED_ALL = os.environ.get("VF_DTD_SCHED_ALL", "0") == "1"
-LIVELOCK_SCHEDS = ("ip", "llp", "ap")
+LIVELOCK_SCHEDS = ("ip", "llp", "ll", "ap")
 # known finding (corpus/C03/regress/three_ranks_hang.txt): on >= 3 ranks plain insertion scripts hang (flaky).  Unless
 # VF_DTD_RANKS3=1 the multi-rank scripts use 2 ranks.
 RANKS3 = os.environ.get("VF_DTD_RANKS3", "0") == "1"
@@ -802,15 +802,23 @@ def confirm(driver, o, workdir, tag, which, tries=3):
     fails = 0
     msgs = []
     tq = cfg["tq"]
+    ran = 0
     for n in range(tries):
         if o.status == "hang":
             tq = cfg["tq"] * (2 ** n)
         one = run_batch(driver, cfg, [s], workdir, "%s_c%d" % (tag, n), which, tq=tq)[0]
+        ran += 1
         if one.status in ("violation", "crash", "hang"):
             fails += 1
             msgs.append("%s: %s" % (one.status, "; ".join(one.msgs)[:500]))
-        elif one.status == "inconclusive":
-            msgs.append("inconclusive: " + "; ".join(one.msgs)[:200])
+            if o.status != "hang":
+                break                      # reproduced alone: that is all the replay has to show
+        else:
+            if one.status == "inconclusive":
+                msgs.append("inconclusive: " + "; ".join(one.msgs)[:200])
+            if o.status == "hang":
+                break                      # a hang counts only if every solitary replay hangs too (DESIGN 4.1)
+    tries = ran if o.status != "hang" else tries
     note = "found as: %s: %s\nalone: failed %d of %d fresh runs" % (o.status, " | ".join(o.msgs)[:600], fails, tries)
     if o.status == "hang":
         ok = fails == tries        # DESIGN 4.1: a hang counts only if every replay is quiescent-incomplete
